@@ -4,7 +4,7 @@ use rosu_pp::{any::HitResultPriority, model::mode::GameMode, Difficulty, Perform
 use serde_json::json;
 
 use super::{
-    common::{calc_for_mode, perf_for_mode, pick_target, strains_for_mode},
+    common::{calc_for_mode, perf_for_mode, pick_target, skip_open_taiko, strains_for_mode},
     Property,
 };
 use crate::{
@@ -289,6 +289,26 @@ fn case(t: &mut Tape, info: &mut CaseInfo) -> Result<(), String> {
         }
         info.comparisons += 1;
     }
+    // (f) the same settings object handed to the gradual calculators means the same thing: the last gradual
+    // value equals the one-shot result for those settings (mods, clock rate, overrides, hardrock_offsets, lazer)
+    // (a preset passed_objects is left out: only the mania gradual calculator honours it, and the listed
+    // gradual properties do not quantify over it)
+    let d_all = d.clone();
+    let d = setters.iter().filter(|s| !matches!(s, Setter::Passed(_))).fold(Difficulty::new(), |d, s| s.on_difficulty(d, target));
+    if !skip_open_taiko(&map, &d, target, info)? {
+        let mut g = rosu_pp::GradualDifficulty::new_with_mode(d.clone(), &map, target).map_err(|e| format!("gradual ctor: {e}"))?;
+        let n = g.len();
+        if n > 0 {
+            let last = g.nth(n - 1).ok_or("gradual calculator ended before its announced length")?;
+            same("last gradual difficulty value vs one-shot with the same Difficulty", &last, &calc_for_mode(&d, &map, target)?)?;
+            let mut gp = rosu_pp::GradualPerformance::new_with_mode(d.clone(), &map, target).map_err(|e| format!("gradual perf ctor: {e}"))?;
+            if let Some(lastp) = gp.last(rosu_pp::any::ScoreState::default()) {
+                same("difficulty part of the last gradual performance value vs one-shot", &lastp.difficulty_attributes(), &calc_for_mode(&d, &map, target)?)?;
+            }
+            info.comparisons += 2;
+        }
+    }
+    let d = d_all;
     // strains honour the same settings object
     let _ = strains_for_mode(&d, &map, target)?.dump();
     info.label_if(out_of_range, "out-of-range-value");
@@ -303,7 +323,7 @@ pub fn property() -> Property {
         id: "C18",
         subchecks: vec![SubCheck {
             name: "setters-equivalence",
-            rule: "G-MAP (all modes + converts, <=25 objects) x a generated list of 1-8 setter applications (mods in any representation, passed_objects, clock_rate incl. 0/-1/inf/1e300, ar/cs/hp/od with both flags incl. +-inf and far out of range, hardrock_offsets, lazer) x score spec x a generated permutation. Oracle: (a) Performance::<setters> == Performance::difficulty(Difficulty::<setters>) on all fields; (b) any order of independent setters gives an == Difficulty and equal results, repeated setters: last wins; (c) inspect().into_difficulty() and InspectDifficulty::from round-trip to an == Difficulty, and an InspectDifficulty filled in by hand with the raw unclamped values converts to the same Difficulty as the setter chain; (d) inspect() shows clamp(clock,0.01,100) / clamp(value,-20,20) and results equal those of the clamped value; (e) setters documented as irrelevant for the mode (Difficulty/Performance ar+cs for taiko/mania, hardrock_offsets outside catch, lazer for taiko/catch; score setters combo for mania, n50 for taiko, n_katu/n_geki/tick setters outside their modes, priority for catch) leave results untouched. Non-trivial: >=3 distinct setter kinds and an out-of-range value or an irrelevant setter.",
+            rule: "G-MAP (all modes + converts, <=25 objects) x a generated list of 1-8 setter applications (mods in any representation, passed_objects, clock_rate incl. 0/-1/inf/1e300, ar/cs/hp/od with both flags incl. +-inf and far out of range, hardrock_offsets, lazer) x score spec x a generated permutation. Oracle: (a) Performance::<setters> == Performance::difficulty(Difficulty::<setters>) on all fields; (b) any order of independent setters gives an == Difficulty and equal results, repeated setters: last wins; (c) inspect().into_difficulty() and InspectDifficulty::from round-trip to an == Difficulty, and an InspectDifficulty filled in by hand with the raw unclamped values converts to the same Difficulty as the setter chain; (d) inspect() shows clamp(clock,0.01,100) / clamp(value,-20,20) and results equal those of the clamped value; (e) setters documented as irrelevant for the mode (Difficulty/Performance ar+cs for taiko/mania, hardrock_offsets outside catch, lazer for taiko/catch; score setters combo for mania, n50 for taiko, n_katu/n_geki/tick setters outside their modes, priority for catch) leave results untouched; (f) the same Difficulty handed to GradualDifficulty / GradualPerformance: their last value's difficulty attributes equal the one-shot result (open taiko class skipped). Non-trivial: >=3 distinct setter kinds and an out-of-range value or an irrelevant setter.",
             quick: 10_000,
             thorough: 200_000,
             tape_len: 1300,
